@@ -38,13 +38,17 @@ XMPPRef(m, cfg) == IF m.at >= 0 /\ m.at + 6 <= 50 THEN "Y" ELSE "N"
 (***************************************************************************)
 PGMsgs == [kind : {"ssl", "startup"},
            len  : {"exact", "zero", "three", "seven", "huge", "max"},   \* declared length vs. actual
-           major : {3, 2, 0}, params : {0, 1, 2}, term : {"ok", "nofinal", "nonul"}]
-PGValid(m) == /\ m.kind = "ssl" => (m.major = 3 /\ m.params = 0 /\ m.term = "ok" /\ m.len \in {"exact", "zero", "three", "seven", "huge"})
-              /\ m.kind = "startup" => TRUE
+           major : {3, 2, 0}, params : {0, 1, 2}, term : {"ok", "nofinal", "nonul"},
+           \* size: "small" = as short as the fields allow; "max" / "over": the first value padded so that the whole packet has
+           \* exactly 10000 / 10001 bytes (MAX_STARTUP_PACKET_LENGTH is 10000) - more than MaxMatchingBytes, yet within what
+           \* the matching buffer can hold after a last chunk read at 8191 bytes
+           size : {"small", "max", "over"}]
+PGValid(m) == /\ m.kind = "ssl" => (m.major = 3 /\ m.params = 0 /\ m.term = "ok" /\ m.len \in {"exact", "zero", "three", "seven", "huge"} /\ m.size = "small")
+              /\ m.kind = "startup" => (m.size # "small" => (m.len = "exact" /\ m.major = 3 /\ m.params = 1 /\ m.term = "ok"))
 \* ("nofinal" / "nonul": the final terminator / the last value's terminator is missing; the matcher documents "looks like the Postgres
 \* protocol", so whether such a packet matches is left open: "X")
 PGRef(m, cfg) ==
-  IF m.len # "exact" THEN "N"                     \* a length below 8 or beyond the packet limit is no startup packet
+  IF m.len # "exact" \/ m.size = "over" THEN "N"  \* a length below 8 or beyond the packet limit is no startup packet
   ELSE IF m.kind = "ssl" THEN "Y"
   ELSE IF m.major # 3 THEN "N"
   ELSE IF m.params = 0 THEN "N"
